@@ -17,7 +17,7 @@ def harnesses(tier):
                        desc='protocol step %s from an arbitrary valid protocol state' % op))
     if tier == 'thorough':
         # the real 1024-object slab has no verdict (14 GB, measured): a 64-object slab is the deepest that completes
-        hs.append(dict(name='c18_step_token_new_slab64', src='c18/proto.c', defs=dict(OP=1, NOBJ=64),
+        hs.append(dict(name='c18_step_token_new_slab64', src='c18/proto.c', defs=dict(OP=1, NOBJ=64, MMD6_VERIF_POOL_OBJECTS=64),
                        units=['repo:object_pool.c', 'repo:stack.c'], unwind=6, timeout=3000, mem_gb=14, backend='cadical',
                        bounds='64-object slabs (through the MMD6_VERIF_POOL_OBJECTS hook)', desc='allocation step at a 64-object slab'))
     return hs
